@@ -42,7 +42,7 @@ def queries(tier):
     words = [(w, t, {}) for w, t in REQ_CUR]
     words += [(w, t, {"RANDOM0": "0x7fffffffu"}) for w, t in REQ_CUR[:6]]   # first id 0xffffffff: next one wraps to 0x80000000
     for w in skel.enumerate_words(ALPHA, 4 if tier == "quick" else 5, first=["A(0)", "S(0,%d,1)", "R(0,%d,0)", "O(0,-1)"],
-                                  limit=160 if tier == "quick" else 4000):
+                                  limit=110 if tier == "quick" else 4000):
         words.append((w, 0, {}))
     seen = set()
     for w, two, d in words:
